@@ -1,6 +1,8 @@
 #!/bin/bash
 # Runs every thorough check once and prints one line per property (development aid)
 cd "$(dirname "$0")/.."
+# under `vp run --with-repo` the checks build against the snapshot of /repo, so that /repo may change meanwhile
+[ -n "$VP_RUN_REPO" ] && export VERIF_REPO="$VP_RUN_REPO"
 for id in $(python3 -c "import checks_config as c; print(' '.join(sorted(c.PROPS)))"); do
   t0=$(date +%s)
   out=$(./check $id --tier thorough 2>&1); rc=$?
